@@ -257,6 +257,8 @@ class TrackedValue(object):
         self.attr = attr
     @classmethod
     def make(cls, obj, attr, value):
+        if isinstance(value, TrackedValue) and value.obj_ref() is obj and value.attr is attr:
+            return value  # already tracked for the same attribute: keep identity, as plain containers do
         if isinstance(value, dict):
             return TrackedDict(obj, attr, value)
         if isinstance(value, list):
